@@ -92,6 +92,14 @@ CLAIMED["C05"] = ("other",
     "Trusted: clang 14 front end; LLVM sroa/early-cse; irx; gf2.py, lin.py and props/c05.py; the reference tables (DESIGN Appendix B) as the specification of the format.",
     "static analysis: effect-signature recovery (stores to struct fields with linear offset forms) compared with reference tables + GF(2) bit-level evaluation on LLVM IR (custom checker)", "DESIGN.md §3 C05, Appendix B")
 
+CLAIMED["C11"] = ("other",
+    "Static provenance and byte-map analysis (claimed in part): every value stored to the file-name field is NULL, a buffer whose sanitising loop - evaluated abstractly over all 256 byte values - "
+    "leaves no '/', the tail after the last '/', or is handed to split_header_filename on every successful path; only the listed normalisers write name/path bytes; the separator loops visit every "
+    "byte and the path header always ends in a separator; every header returned with a non-NULL path passed through collapse_path(header->path) and nothing that can write the path field or path bytes "
+    "runs afterwards; headers are created only in lha_file_header_read. NOT decided, stated plainly: the in-place state machine inside collapse_path - a change confined to its body is not detected.",
+    "Trusted: clang 14 front end; LLVM sroa/early-cse; irx; bytemap.py and the fact engine; strrchr/strdup semantics; assumption A-tolower (tolower cannot introduce '/').",
+    "static analysis: value-provenance rules, byte-map loop evaluation over the 256-value domain, cut-set (sanitiser-last) and call-graph mod-set rules on LLVM IR (custom checker)", "DESIGN.md §3 C11")
+
 NOT_APPLICABLE = {
     "C01": "decode exactness is an equality of runtime byte streams produced by table-driven Huffman state machines; no structural clause is a necessary condition the tests leave open (DESIGN §4)",
     "C02": "lock-step of the adaptive -lh1- tree with LZHUF is an equality over runtime symbol histories (tie-break order, rebuild threshold are value computations); not decidable by static analysis in reach (DESIGN §4)",
